@@ -136,3 +136,46 @@ func VerifObjDecode() {
 		vrt.Assert("C20.object-decoder-refuses-every-other-object", err != nil)
 	}
 }
+
+// VerifTickerDecode: C20 "known tickers". The real (*PTicker).UnmarshalJSON is handed the
+// canonical spelling of an asset name and near misses of it (other case, padded, clipped,
+// prefix dropped/added), quoted as in a JSON document. Accepted exactly the canonical spelling,
+// decoding to that asset. (The names are written out here as specification.)
+func VerifTickerDecode() {
+	names := []struct {
+		s string
+		t PTicker
+	}{{"PEG", PTickerPEG}, {"pUSD", PTickerUSD}, {"pXBT", PTickerXBT}, {"pFCT", PTickerFCT}, {"pDCR", PTickerDCR}, {"pNGN", PTickerMax - 1}}
+	nm := names[vrt.Choose("name", len(names))]
+	lower := func(s string) string {
+		b := []byte(s)
+		for i := range b {
+			if b[i] >= 'A' && b[i] <= 'Z' {
+				b[i] += 'a' - 'A'
+			}
+		}
+		return string(b)
+	}
+	upper := func(s string) string {
+		b := []byte(s)
+		for i := range b {
+			if b[i] >= 'a' && b[i] <= 'z' {
+				b[i] -= 'a' - 'A'
+			}
+		}
+		return string(b)
+	}
+	variants := []string{nm.s, lower(nm.s), upper(nm.s), nm.s + " ", " " + nm.s, nm.s[1:], "p" + nm.s, nm.s[:len(nm.s)-1], nm.s + "x"}
+	k := vrt.Choose("spelling", len(variants))
+	text := variants[k]
+	var t PTicker
+	err := t.UnmarshalJSON([]byte(`"` + text + `"`))
+	if text == nm.s {
+		vrt.Cover("canonical-name")
+		vrt.Assert("C20.canonical-ticker-name-is-accepted-as-that-asset", err == nil && t == nm.t)
+		return
+	}
+	// a near miss may happen to be another asset's canonical name ("p"+"PEG" is not; "pUSD"[1:] = "USD" is not)
+	vrt.Cover("near-miss")
+	vrt.Assert("C20.only-canonical-ticker-names-are-accepted", err != nil)
+}
